@@ -33,6 +33,8 @@ type World struct {
 	// AnnotationPhases: build the ObjectSetPhase controller in its multi-cluster flavour
 	// (annotation owner strategy) instead of the same-cluster one.
 	AnnotationPhases bool
+	// Images: the scripted registry of the Package controller harness
+	Images map[string]fixture
 }
 
 var (
